@@ -10,7 +10,12 @@ from .common import run_control, generic_rules
 
 def analyse(ctx: CheckContext, p: Program):
     r = Resolver(p)
-    generic_rules(ctx, p, r, "C19")
+    ctx.guard(generic_rules, ctx, p, r, "C19")
+    ctx.guard(_specific, ctx, p, r)
+    ctx.guard(_stream_rules, ctx, p, r)
+
+
+def _specific(ctx: CheckContext, p: Program, r: Resolver):
     sc = p.find_class("StreamCollection")
     st = p.find_class("Stream")
     if sc is None or st is None:
@@ -22,9 +27,9 @@ def analyse(ctx: CheckContext, p: Program):
     ctx.rule("MEMO", "dirty-flag cache: at every normal exit of a method reachable after a write to a field the cache is computed from, "
                      "the cache is marked invalid (M1); every cache read is dominated by the recompute call with no member write in between (M2)")
     ctx.info["sort_cache"] = {"method": pat.method.qualname, "flag": pat.flag, "caches": pat.caches, "sources": sorted(pat.sources)}
-    classflow.check_memo(ctx, r, pat, "MEMO")
+    ctx.guard(classflow.check_memo, ctx, r, pat, "MEMO")
     ctx.rule("MEMO-DEAD", "every private field stored by a public mutator is read somewhere in the class")
-    classflow.check_dead_config_fields(ctx, r, sc, pat, "MEMO-DEAD")
+    ctx.guard(classflow.check_dead_config_fields, ctx, r, sc, pat, "MEMO-DEAD")
     # the member map is the dict-typed source initialised with {} in __init__
     init = sc.methods["__init__"]
     maps = []
@@ -35,7 +40,7 @@ def analyse(ctx: CheckContext, p: Program):
     if len(maps) != 1:
         raise AnalysisError(f"StreamCollection: member map not identified ({maps})")
     ctx.info["member_map"] = maps[0]
-    classflow.check_who_member_map(ctx, r, sc, maps[0])
+    ctx.guard(classflow.check_who_member_map, ctx, r, sc, maps[0])
     # concatenation holds every member of both operands: the result is fed from the member maps of BOTH operands
     addf = sc.methods.get("__add__")
     if addf is None:
@@ -83,11 +88,17 @@ def analyse(ctx: CheckContext, p: Program):
         reads = classflow.fields_read(f.node, "self")
         ok = maps[0] in reads and not (set(pat.caches) & reads)
         ctx.ob("WHO-LEN", f"{f.qualname}", f.loc, ok, "" if ok else f"StreamCollection.{nm} does not answer from the member map {maps[0]} (reads {sorted(reads)})")
-    # Stream
-    derived.check_derived(ctx, r, st, invariant_props=["CP", "t_min", "t_max", "t_min_star", "t_max_star", "htr"],
+
+
+def _stream_rules(ctx: CheckContext, p: Program, r: Resolver):
+    st = p.find_class("Stream")
+    if st is None:
+        raise AnalysisError("Stream class not found")
+    ctx.guard(derived.check_derived, ctx, r, st, invariant_props=["CP", "t_min", "t_max", "t_min_star", "t_max_star", "htr"],
                           base_props=["t_supply", "t_target", "heat_flow", "dt_cont", "htc"])
-    groups = derived.check_shift_direction(ctx, r, st)
-    derived.check_helper_guards(ctx, r, st, groups)
+    groups = ctx.guard(derived.check_shift_direction, ctx, r, st)
+    if groups is not None:
+        ctx.guard(derived.check_helper_guards, ctx, r, st, groups)
 
 
 def run(ctx: CheckContext):
